@@ -57,7 +57,7 @@ fn gen_fledger(r: &mut Rng, last: NaiveDate) -> Vec<FTx> {
         let k = if k == Kind::Sell && pos < q { Kind::Buy } else { k };
         match k { Kind::Buy => pos += q, Kind::Sell => pos -= q, _ => {} }
         let b = (Decimal::new(r.range(1, 500_000), 2), pick_cur(r));
-        let c = if r.chance(1, 3) { (Decimal::ZERO, "GBP") } else { (Decimal::new(r.range(1, 3000), 2), pick_cur(r)) };
+        let c = if r.chance(1, 3) { (Decimal::ZERO, if r.chance(1, 3) { pick_cur(r) } else { "GBP" }) } else { (Decimal::new(r.range(1, 3000), 2), pick_cur(r)) };
         let (b, c) = if k == Kind::CapReturn { ((Decimal::new(r.range(1, 2000), 2), b.1), (Decimal::ZERO, "GBP")) } else { (b, c) };
         out.push(FTx { date, ticker: "AAA".into(), kind: k, a: q, b, c });
     }
@@ -85,7 +85,7 @@ fn cache_slice(cache: &FxCache, keys: &[(String, i32, u32)]) -> String {
 
 pub fn run(ctx: &mut Ctx) {
     let prop = "C08";
-    ctx.ev.rule = "part 1 (conversion): generated single-security ledgers with price and fees/tax in independently chosen currencies (GBP, USD, EUR, JPY, CHF, AUD, occasionally XTS which has no rates), months from 2015-01 to the last bundled month and beyond, against the real bundled cache: each converted field must equal amount ÷ rate(own currency, own year, own month) (GBP unchanged); the report of the foreign ledger must equal the report of the pre-converted GBP ledger; a missing rate must fail naming the first field's currency and the transaction's month; the Lean model must agree on every converted value and error. part 2 (loader): generated rate folders (real XML text, real file names, modification times) loaded with the real loader: overridden keys take the newest file's rate, all other keys keep the bundled rate, files whose period disagrees with their name, with month 13 names, or with a zero/negative rate are rejected; compared with the model's loadCache. Non-trivial = ledgers with two different non-GBP currencies on one line, and folders with ≥ 2 files; distinct by case text.".into();
+    ctx.ev.rule = "part 1 (conversion): generated single-security ledgers with price and fees/tax in independently chosen currencies (GBP, USD, EUR, JPY, CHF, AUD, occasionally XTS which has no rates), months from 2015-01 to the last bundled month and beyond, against the real bundled cache: each converted field must equal amount ÷ rate(own currency, own year, own month) (GBP unchanged); the report of the foreign ledger must equal the report of the pre-converted GBP ledger; a missing rate that is needed (non-zero amount) must fail naming the first such field's currency and the transaction's month; a zero amount converts to zero whatever its label; the Lean model must agree on every converted value and error. part 2 (loader): generated rate folders (real XML text, real file names, modification times) loaded with the real loader: overridden keys take the newest file's rate, all other keys keep the bundled rate, files whose period disagrees with their name, with month 13 names, or with a zero/negative rate are rejected; compared with the model's loadCache. Non-trivial = ledgers with two different non-GBP currencies on one line, and folders with ≥ 2 files; distinct by case text.".into();
     let bundled = cgt_money::load_default_cache().expect("bundled cache");
     // last bundled month for USD
     let mut last = NaiveDate::from_ymd_opt(2015, 1, 1).expect("d");
@@ -109,6 +109,7 @@ pub fn run(ctx: &mut Ctx) {
             for (k, f) in [&t.b, &t.c].iter().enumerate() {
                 if matches!(t.kind, Kind::Split | Kind::Unsplit) { continue; }
                 if f.1 == "GBP" { pair[k] = f.0; continue; }
+                if f.0.is_zero() { pair[k] = Decimal::ZERO; continue; } // a zero amount needs no rate
                 match bundled.get(cur(f.1), t.date.year(), t.date.month()) {
                     Some(e) => pair[k] = f.0 / e.rate_per_gbp,
                     None => { expect_err = Some((f.1.to_string(), t.date.year(), t.date.month())); break 'outer; }
